@@ -1212,7 +1212,7 @@ def einsum(*operands, out=None, **kwargs):
     else:
         out_view = out
 
-    res = np.einsum._implementation(subscripts, *operands, out=out_view)
+    res = np.einsum._implementation(subscripts, *operands, out=out_view, **kwargs)
 
     if getattr(out, "units", None) is not None:
         out.units = ret_units
